@@ -208,3 +208,57 @@ Proof. reflexivity. Qed.
 Lemma gen_wiring_Strand_scale_std_err :
   wsrc_Strand_scale_std_err = Some (WAttr (WAttr (WSelf "_measures") "scaled_counts") "scale_stderr").
 Proof. reflexivity. Qed.
+
+(* SecondOrderMeasures.columns_scale_mean *)
+Lemma gen_wiring_SecondOrderMeasures_columns_scale_mean :
+  wsrc_SecondOrderMeasures_columns_scale_mean = Some (WCall (WGlobal "_ScaleMean") [WSelf
+      "_dimensions"; WVar "self"; WSelf "_cube_measures"; WAttr (WGlobal "MO") "COLUMNS"] []).
+Proof. reflexivity. Qed.
+
+(* SecondOrderMeasures.columns_scale_mean_stddev *)
+Lemma gen_wiring_SecondOrderMeasures_columns_scale_mean_stddev :
+  wsrc_SecondOrderMeasures_columns_scale_mean_stddev = Some (WCall (WGlobal "_ScaleMeanStddev") [WSelf
+      "_dimensions"; WVar "self"; WSelf "_cube_measures"; WAttr (WGlobal "MO") "COLUMNS"] []).
+Proof. reflexivity. Qed.
+
+(* SecondOrderMeasures.columns_scale_mean_stderr *)
+Lemma gen_wiring_SecondOrderMeasures_columns_scale_mean_stderr :
+  wsrc_SecondOrderMeasures_columns_scale_mean_stderr = Some (WCall (WGlobal "_ScaleMeanStderr") [WSelf
+      "_dimensions"; WVar "self"; WSelf "_cube_measures"; WAttr (WGlobal "MO") "COLUMNS"] []).
+Proof. reflexivity. Qed.
+
+(* SecondOrderMeasures.columns_scale_median *)
+Lemma gen_wiring_SecondOrderMeasures_columns_scale_median :
+  wsrc_SecondOrderMeasures_columns_scale_median = Some (WCall (WGlobal "_ScaleMedian") [WSelf
+      "_dimensions"; WVar "self"; WSelf "_cube_measures"; WAttr (WGlobal "MO") "COLUMNS"] []).
+Proof. reflexivity. Qed.
+
+(* SecondOrderMeasures.rows_scale_mean *)
+Lemma gen_wiring_SecondOrderMeasures_rows_scale_mean :
+  wsrc_SecondOrderMeasures_rows_scale_mean = Some (WCall (WGlobal "_ScaleMean") [WSelf "_dimensions";
+      WVar "self"; WSelf "_cube_measures"; WAttr (WGlobal "MO") "ROWS"] []).
+Proof. reflexivity. Qed.
+
+(* SecondOrderMeasures.rows_scale_mean_stddev *)
+Lemma gen_wiring_SecondOrderMeasures_rows_scale_mean_stddev :
+  wsrc_SecondOrderMeasures_rows_scale_mean_stddev = Some (WCall (WGlobal "_ScaleMeanStddev") [WSelf
+      "_dimensions"; WVar "self"; WSelf "_cube_measures"; WAttr (WGlobal "MO") "ROWS"] []).
+Proof. reflexivity. Qed.
+
+(* SecondOrderMeasures.rows_scale_mean_stderr *)
+Lemma gen_wiring_SecondOrderMeasures_rows_scale_mean_stderr :
+  wsrc_SecondOrderMeasures_rows_scale_mean_stderr = Some (WCall (WGlobal "_ScaleMeanStderr") [WSelf
+      "_dimensions"; WVar "self"; WSelf "_cube_measures"; WAttr (WGlobal "MO") "ROWS"] []).
+Proof. reflexivity. Qed.
+
+(* SecondOrderMeasures.rows_scale_median *)
+Lemma gen_wiring_SecondOrderMeasures_rows_scale_median :
+  wsrc_SecondOrderMeasures_rows_scale_median = Some (WCall (WGlobal "_ScaleMedian") [WSelf
+      "_dimensions"; WVar "self"; WSelf "_cube_measures"; WAttr (WGlobal "MO") "ROWS"] []).
+Proof. reflexivity. Qed.
+
+(* StripeMeasures.scaled_counts *)
+Lemma gen_wiring_StripeMeasures_scaled_counts :
+  wsrc_StripeMeasures_scaled_counts = Some (WCall (WGlobal "_ScaledCounts") [WSelf "_rows_dimension";
+      WVar "self"; WSelf "_cube_measures"] []).
+Proof. reflexivity. Qed.
